@@ -187,8 +187,13 @@ static void yield_forced(int me, const char *why) {
 }
 
 // ------------------------------------------------------------------ regions
-struct Region { uintptr_t lo, hi; int owner; const char *name; };
+// Caller-owned regions are private to their task.  Regions the library itself allocated ("lib-*") may legitimately
+// change hands (a pool or cache behind a lock): for those the region is one variable of a happens-before detector
+// (last write + last read per task, compared with the accessing task's vector clock), so a hand-over through any
+// synchronisation the runtime models is clean and one without it is a race.
+struct Region { uintptr_t lo, hi; int owner; const char *name; bool lib; int w_tid; uint32_t w_clk; uint32_t r_clk[MAX_TASKS]; };
 static std::vector<Region> g_regions;   // sorted by lo
+static unsigned long g_region_handovers;
 static size_t g_last_hit[MAX_TASKS];
 static Region *find_region(uintptr_t a, int me) {
   size_t h = g_last_hit[me];
@@ -201,7 +206,7 @@ static Region *find_region(uintptr_t a, int me) {
   return nullptr;
 }
 void thr::region_add(const void *p, size_t n, int owner, const char *name) {
-  Region r{(uintptr_t)p, (uintptr_t)p + n, owner, name};
+  Region r{(uintptr_t)p, (uintptr_t)p + n, owner, name, name[0] == 'l' && name[1] == 'i' && name[2] == 'b' && name[3] == '-', -1, 0, {0}};
   auto it = std::lower_bound(g_regions.begin(), g_regions.end(), r, [](const Region &a, const Region &b) { return a.lo < b.lo; });
   g_regions.insert(it, r);
 }
@@ -271,7 +276,18 @@ static inline void mem_access(const void *p, size_t n, bool w) {
   uintptr_t a = (uintptr_t)p;
   if (a - g_t[me].stk_lo < g_t[me].stk_hi - g_t[me].stk_lo) { tick(me); return; }
   Region *r = find_region(a, me);
-  if (r) {
+  if (r && r->lib) {
+    if (r->w_tid >= 0 && r->w_tid != me && r->w_clk > g_t[me].vc[r->w_tid]) {
+      if (!run_violated()) violation(nullptr, "race", me, g_t[me].op, vfmt("task %d %s %s+%zu, last written by task %d, with no happens-before between them, in %s", me, w ? "writes" : "reads", r->name, (size_t)(a - r->lo), r->w_tid, stack_text(me).c_str()));
+    } else if (w) {
+      for (int u = 0; u < g_ntasks; u++) if (u != me && r->r_clk[u] > g_t[me].vc[u]) {
+        if (!run_violated()) violation(nullptr, "race", me, g_t[me].op, vfmt("task %d writes %s+%zu, read by task %d, with no happens-before between them, in %s", me, r->name, (size_t)(a - r->lo), u, stack_text(me).c_str()));
+        break;
+      }
+      if (r->w_tid != me && r->w_tid >= 0) g_region_handovers++;
+      r->w_tid = me; r->w_clk = g_t[me].vc[me]; memset(r->r_clk, 0, sizeof r->r_clk);
+    } else r->r_clk[me] = g_t[me].vc[me];
+  } else if (r) {
     if (r->owner != me) {
       if (r->owner == -1) { if (w && !run_violated()) violation(nullptr, "race", me, g_t[me].op, vfmt("write to read-only input shared between tasks (%s) in %s", r->name, stack_text(me).c_str())); }
       else if (!run_violated())
@@ -424,7 +440,7 @@ void thr::begin_run(const J &sch, uint64_t seed, int ntasks) {
   g_regions.clear(); for (auto &h : g_last_hit) h = (size_t)-1;
   if (g_sync) g_sync->clear();
   g_switch_log = J::arr(); g_ileave_hash = 0xcbf29ce484222325ULL;
-  g_nswitch = g_midcall_switch = g_shared_writes = g_shared_write_preempt = g_forced_switch = 0; g_switch_fn.clear(); g_shared_write_at.clear(); g_pending_bias = false;
+  g_nswitch = g_midcall_switch = g_shared_writes = g_shared_write_preempt = g_forced_switch = 0; g_region_handovers = 0; g_switch_fn.clear(); g_shared_write_at.clear(); g_pending_bias = false;
   g_explicit = sch.str("mode") == "explicit";
   g_explicit_sw.clear(); g_explicit_pos = 0;
   if (g_explicit) for (auto &e : sch.at("switches").a) if (e.a.size() == 2) g_explicit_sw.emplace_back((uint64_t)e.a[0].n, (int)e.a[1].n);
@@ -479,7 +495,7 @@ J thr::end_run() {
   J o = J::obj();
   o["steps"] = (long long)g_step; o["switches"] = (long long)g_nswitch; o["midcall_switches"] = (long long)g_midcall_switch;
   o["forced_switches"] = (long long)g_forced_switch;
-  o["shared_writes"] = (long long)g_shared_writes; o["shared_write_preempt"] = (long long)g_shared_write_preempt;
+  o["shared_writes"] = (long long)g_shared_writes; o["lib_region_handovers"] = (long long)g_region_handovers; o["shared_write_preempt"] = (long long)g_shared_write_preempt;
   o["shadow_cells"] = (long long)g_shadow_used;
   o["interleaving"] = vfmt("%016llx", (unsigned long long)g_ileave_hash);
   J fn = J::obj(); for (auto &kv : g_switch_fn) fn[kv.first] = (long long)kv.second; o["switch_at"] = fn;
